@@ -974,28 +974,44 @@ impl<'a> Monitor<'a>
         {
             if why == "postponed-not-replayed" && self.obls[i].payload.is_none()
             {
-                let o = self.obls[i].clone();
-                let swap = self.obls.iter().position(|x| x.actor == o.actor && x.created_at < since
-                    && x.kind == o.kind && x.source == o.source && x.payload.is_none() && x.postponed_on.is_some()
-                    && matches!(x.state, OState::Running | OState::Exited | OState::Done) && x.run_at > o.postponed_at);
-                if let Some(j) = swap
+                // The unmarked delivery ("hole") takes the mark of an interchangeable delivery whose run / abort came
+                // after the hole was postponed; if that delivery belongs to this boundary too it becomes the hole and
+                // the search goes on (a rotation), otherwise it is judged at its own boundary.
+                let mut hole = i;
+                let mut used: Vec<usize> = vec![i];
+                let mut resolved = false;
+                loop
                 {
-                    let (si, sj) = (self.obls[i].state, self.obls[j].state);
-                    self.obls[i].state = sj;
+                    let o = self.obls[hole].clone();
+                    let cand = self.obls.iter().enumerate()
+                        .filter(|(j, x)| !used.contains(j) && x.actor == o.actor
+                            && x.kind == o.kind && x.source == o.source && x.payload.is_none() && x.postponed_on.is_some()
+                            && matches!(x.state, OState::Running | OState::Exited | OState::Done | OState::Aborted)
+                            && x.run_at > o.postponed_at)
+                        .min_by_key(|(_, x)| x.run_at)
+                        .map(|(j, _)| j);
+                    let Some(j) = cand else { break };
+                    let (si, sj) = (self.obls[hole].state, self.obls[j].state);
+                    self.obls[hole].state = sj;
                     self.obls[j].state = si;
-                    let (ri, rj) = (self.obls[i].run, self.obls[j].run);
-                    self.obls[i].run = rj;
+                    let (ri, rj) = (self.obls[hole].run, self.obls[j].run);
+                    self.obls[hole].run = rj;
                     self.obls[j].run = ri;
-                    let (ai, aj) = (self.obls[i].run_at, self.obls[j].run_at);
-                    self.obls[i].run_at = aj;
+                    let (ai, aj) = (self.obls[hole].run_at, self.obls[j].run_at);
+                    self.obls[hole].run_at = aj;
                     self.obls[j].run_at = ai;
                     for f in self.frames.iter_mut()
                     {
-                        if f.obl == Some(j) { f.obl = Some(i); } else if f.obl == Some(i) { f.obl = Some(j); }
+                        if f.obl == Some(j) { f.obl = Some(hole); } else if f.obl == Some(hole) { f.obl = Some(j); }
                     }
                     self.out.marks_reassigned += 1;
-                    continue;
+                    used.push(j);
+                    if self.obls[j].created_at < since { resolved = true; break; }
+                    hole = j;
                 }
+                if resolved { continue; }
+                bad2.push((hole, why));
+                continue;
             }
             bad2.push((i, why));
         }
@@ -1489,6 +1505,14 @@ impl<'a> Monitor<'a>
                     {
                         self.viol("C02", "R-reach", format!("live-idle-target-aborted:{:?}", decision),
                             format!("actor {actor} exists and is idle but its command was dropped ({:?})", decision));
+                        // a removal / despawn reaction dropped although its reactor should exist: that removal / despawn
+                        // is never reacted to by a reactor registered for it throughout
+                        if obl.map(|i| matches!(self.obls[i].kind, Kind::Despawn | Kind::Removal(_))).unwrap_or(false)
+                        {
+                            self.viol("C08", "R-polled", format!("polled-reaction-aborted:{:?}", decision),
+                                format!("a removal / despawn reaction for actor {actor} was dropped ({:?}) although the \
+                                    actor should exist", decision));
+                        }
                         // a replayed (postponed) command that is dropped although its target should exist: the
                         // postponement clause as well
                         if obl.map(|i| self.obls[i].state == OState::Postponed).unwrap_or(false)
@@ -1507,6 +1531,9 @@ impl<'a> Monitor<'a>
                 if let Some(i) = obl
                 {
                     self.obls[i].state = OState::Aborted;
+                    // (the position at which a postponed delivery was discharged, used by the re-assignment of marks
+                    // among interchangeable postponed deliveries)
+                    self.obls[i].run_at = self.pos;
                     self.update_refcounts();
                 }
             }
